@@ -1,4 +1,4 @@
-/- Line-protocol driver for the typed-list model (see harness/c03.py for the request shape). -/
+/- Line-protocol driver for the typed-container model (see harness/c03.py for the request shapes). -/
 import PgModel.TypingJson
 import PgModel.SymTyped
 open Pg Pg.Typing Pg.C03
@@ -8,36 +8,110 @@ def bad (msg : String) : J := .obj [("bad_request", .str msg)]
 def eName : E → String
   | .type => "TypeError" | .value => "ValueError" | .key => "KeyError" | .index => "IndexError"
 
-def opOfJ : J → Option Op
+def errJ : Option E → J
+  | some x => .str (eName x)
+  | none => .null
+
+def rbOfJ : J → Option (Nat × Bool × Val)
+  | .arr [.int k, .bool ins, v] => (valOfJ v).map fun v' => (k.toNat, ins, v')
+  | _ => none
+
+def listOpOfJ : J → Option ListOp
   | .arr [.str "append", v] => (valOfJ v).map .append
-  | .arr [.str "insert", .int i, v] => (valOfJ v).map (.insert i.toNat)
+  | .arr [.str "insert", .int i, v] => (valOfJ v).map (.insert i)
   | .arr [.str "setitem", .int i, v] => (valOfJ v).map (.setitem i)
+  | .arr [.str "setslice", .int a, .int b, .int c, .arr vs] => (vs.mapM valOfJ).map (.setslice a b c)
   | .arr [.str "delitem", .int i] => some (.delitem i)
+  | .arr [.str "delslice", .int a, .int b, .int c] => some (.delslice a b c)
   | .arr [.str "pop", .int i] => some (.pop i)
   | .arr [.str "remove", v] => (valOfJ v).map .remove
   | .arr [.str "extend", .arr vs] => (vs.mapM valOfJ).map .extend
+  | .arr [.str "extend_iter", .arr vs] => (vs.mapM valOfJ).map .extend
+  | .arr [.str "iadd", .arr vs] => (vs.mapM valOfJ).map .extend
+  | .arr [.str "iadd_iter", .arr vs] => (vs.mapM valOfJ).map .extend
+  | .arr [.str "imul", .int n] => some (.imul n)
   | .arr [.str "clear"] => some .clear
+  | .arr [.str "sort"] => some .sort
+  | .arr [.str "reverse"] => some .reverse
+  | .arr [.str "rebind", .arr kvs] => (kvs.mapM rbOfJ).map .rebind
   | _ => none
 
-def run (env : Env) : TList → List Op → List J
+/-- A write argument: a value, or `["typed", <spec state>, <allow_partial>, <content>]`. -/
+def argOfJ : J → Option Arg
+  | .arr [.str "typed", sj, .bool sp, v] => do
+    pure (.typed (← specOfJ sj) sp (← valOfJ v))
+  | v => (valOfJ v).map .plain
+
+def akvsOfJ (xs : List J) : Option (List (String × Arg)) :=
+  xs.mapM fun (x : J) => match x with
+    | J.arr [J.str k, v] => (argOfJ v).map fun v' => (k, v')
+    | _ => none
+
+def kvsOfJ (xs : List J) : Option (List (String × Val)) :=
+  xs.mapM fun (x : J) => match x with
+    | J.arr [J.str k, v] => (valOfJ v).map fun v' => (k, v')
+    | _ => none
+
+/-- `[op, scope]`: scope = null | bool (an enclosing `pg.allow_partial(scope)`). -/
+def dictOpOfJ : J → Option DictOp
+  | .arr [.str "setitem", .str k, v] => (argOfJ v).map (.setitem k)
+  | .arr [.str "setattr", .str k, v] => (argOfJ v).map (.setitem k)
+  | .arr [.str "delitem", .str k] => some (.delitem k)
+  | .arr [.str "pop", .str k] => some (.delitem k)
+  | .arr [.str "setdefault", .str k, v] => (argOfJ v).map (.setdefault k)
+  | .arr [.str "update", .arr kvs] => (akvsOfJ kvs).map .update
+  | .arr [.str "ior", .arr kvs] => (akvsOfJ kvs).map .update
+  | .arr [.str "rebind", .arr kvs] => (akvsOfJ kvs).map .update
+  | .arr [.str "clear"] => some .clear
+  | .arr [.str "popitem"] => some .popitem
+  | _ => none
+
+def kvsToJ (kvs : List (String × Val)) : J := .arr (kvs.map fun (k, v) => .arr [.str k, valToJ v])
+
+def runList (env : Env) : TList → List ListOp → List J
   | _, [] => []
   | l, op :: ops =>
-    let (l', e) := step env l op
-    .obj [("err", match e with | some x => .str (eName x) | none => .null),
-          ("items", .arr (l'.items.map valToJ)),
-          ("conforms", .bool (conformsB env l'))] :: run env l' ops
+    let (l', e) := listStep env l op
+    .obj [("err", errJ e), ("items", .arr (l'.items.map valToJ)), ("conforms", .bool (conformsB env l'))]
+      :: runList env l' ops
+
+def runDict (env : Env) (p0 : Bool) : TDict → List (DictOp × Option Bool) → List J
+  | _, [] => []
+  | d, (op, scope) :: ops =>
+    let p := scope.getD p0
+    let (d', e) := dictStep env p hasMissing d op
+    .obj [("err", errJ e), ("items", kvsToJ d'.kvs), ("conforms", .bool (conformsDB env true d')),
+          ("complete", .bool (conformsDB env false d'))] :: runDict env p0 d' ops
+
+def scopedOpOfJ : J → Option (DictOp × Option Bool)
+  | .arr [op, .null] => (dictOpOfJ op).map fun o => (o, none)
+  | .arr [op, .bool b] => (dictOpOfJ op).map fun o => (o, some b)
+  | _ => none
 
 def handle (j : J) : J :=
+  let env := envOfJ (j.getD "env" (.obj []))
   match j.getStr? "op" with
   | some "list" =>
-    let env := envOfJ (j.getD "env" (.obj []))
-    match (j.get? "spec").bind specOfJ, (j.getArr? "items").bind (·.mapM valOfJ), (j.getArr? "ops").bind (·.mapM opOfJ) with
+    match (j.get? "spec").bind specOfJ, (j.getArr? "items").bind (·.mapM valOfJ), (j.getArr? "ops").bind (·.mapM listOpOfJ) with
     | some (.list elem mn mx _), some items, some ops =>
       match construct env elem mn mx items with
       | .error e => .obj [("construct", .str (eName e)), ("steps", .arr [])]
       | .ok l => .obj [("construct", .arr (l.items.map valToJ)), ("conforms", .bool (conformsB env l)),
-                       ("steps", .arr (run env l ops))]
+                       ("steps", .arr (runList env l ops))]
     | _, _, _ => bad "list"
-  | _ => bad "op"
+  | some kind =>
+    if kind == "dict" || kind == "object" then
+      match (j.get? "spec").bind specOfJ, (j.getArr? "items").bind kvsOfJ, (j.getArr? "ops").bind (·.mapM scopedOpOfJ),
+            j.getBool? "partial" with
+      | some (.dict (some fields) _), some kvs, some ops, some p =>
+        let c := if kind == "dict" then constructDict env p fields kvs else constructObject env p fields kvs
+        match c with
+        | .error e => .obj [("construct", .str (eName e)), ("steps", .arr [])]
+        | .ok d => .obj [("construct", kvsToJ d.kvs), ("conforms", .bool (conformsDB env true d)),
+                         ("complete", .bool (conformsDB env false d)),
+                         ("steps", .arr (runDict env p d ops))]
+      | _, _, _, _ => bad "dict"
+    else bad "op"
+  | none => bad "op"
 
 def main : IO Unit := driverLoop handle
